@@ -12,6 +12,7 @@ import (
 	"sort"
 	"strings"
 	"sync/atomic"
+	"time"
 
 	"verif/vlib"
 )
@@ -188,7 +189,10 @@ func runC03(c *vlib.Ctx) {
 	// read-only manager, which must equal the live one (DAG, flags, notes, logs, instances, branch heads, id maps, id counters).
 	rdepth := 5
 	if c.Thorough() {
+		// depth 6 holds about a million states: expanded in the fixed stride order of c07BFS under a budget; the depth
+		// completed and the part of the next level that was expanded are reported as a cap
 		rdepth = 6
+		c.Deadline = time.Now().Add(25 * time.Minute)
 	}
 	dstates, dtrans, _, dreloads := c07BFS(c, rdepth, 4, true)
 	c.Set("dagreload_states", dstates)
